@@ -251,6 +251,8 @@ def gen_case(seed, idx, profile, k=None):
                     addr = rnd.choice([rnd.randrange(0, hi + 2), rnd.randrange(0, hi, 1 << al),
                                        rnd.randrange(0, hi, 1 << al), max(0, hi - size)])
                 pal = rnd.choice([None, None, 0, 1, 2, 3]) if profile != "names" else None
+                if profile == "names" and rnd2.random() < 0.12:
+                    pal = rnd2.choice([1, 2, 3])        # a refused name must not move the placement cursor either
                 nm = name()
                 if k == "badres":
                     which = rnd.choice(["size", "addr", "al", "name"])
@@ -489,6 +491,8 @@ def run_impl(case):
                     stats["refused"] += 1
                 if snapshot(h) != before or m.align_to(0) != cur_before:
                     fails.append(("C02", "refused add_resource changed the map", len(obs)))
+                    if profile == "names":
+                        fails.append(("C18", f"add_resource refused for the name {nm} changed the map (contents or the next implicit address)", len(obs)))
                 if (profile == "names" and res == "refused" and nm != BAD and BAD not in (size, addr, pal)
                         and not frozen[h] and not any(it["kind"] == "res" and it["id"] == rid for it in handed[h])
                         and not any(related(nm, v) for v in visible[h])):
@@ -560,6 +564,8 @@ def run_impl(case):
                     stats["refused"] += 1
                 if snapshot(h) != before or m.align_to(0) != cur_before:
                     fails.append(("C02", "refused add_window changed the map", len(obs)))
+                    if profile == "names":
+                        fails.append(("C18", f"add_window refused (window name {wname}) changed the map (contents or the next implicit address)", len(obs)))
                 qs = [tuple(wname)] if wname is not None else sorted(visible[ch], key=str)
                 if (profile == "names" and res == "refused" and not frozen[h] and waddr is None
                         and not any(it["kind"] == "win" and it["id"] == ch for it in handed[h])
